@@ -951,8 +951,15 @@ func (i *interpreter) makeSlice(t types.Type, ln, cp value) value {
 		}
 		return &byteSlice{arr: &byteArr{content: content}, off: int64(0), len: ln, cap: cp}
 	}
-	n := i.concreteInt(cp, "make cap")
 	l := i.concreteInt(ln, "make len")
+	if _, sym := cp.(*Sym); sym {
+		// symbolic capacity, concrete length: the capacity only matters to cap()
+		// and to whether append reallocates; model it as exactly the length
+		i.require(i.path.mkIntCmp(">=", cp, l), "makeslice: cap out of range")
+		i.ex.noteApprox("make: symbolic slice capacity modelled as the length")
+		cp = l
+	}
+	n := i.concreteInt(cp, "make cap")
 	if n < 0 || l < 0 || l > n {
 		rtPanic("makeslice: len out of range")
 	}
